@@ -190,7 +190,8 @@ def stored_centres(spec):
 
 
 def strategy(tier):
-    return S.dataset_spec(max_vars=3, max_extra=2, modes=("raw", "raw", "decoded"))
+    return S.dataset_spec(max_vars=3, max_extra=2, modes=("raw", "raw", "decoded"),
+                          geom_kwargs={"twist": True})
 
 
 def mesh_strategy(tier):
